@@ -1,4 +1,4 @@
-from sa.selftest.harness import M, T
+from sa.selftest.harness import M, T, Variant
 
 X = "sharepoint2text/parsing/extractors/"
 D = X + "data_types.py"
@@ -47,6 +47,7 @@ MUTANTS = [
 ]
 
 TWINS = [
+    T("docx-grid-count-by-findall", "sharepoint2text/parsing/extractors/ms_modern/docx_extractor.py", "    elem = properties.find(tag)\n    if elem is None:\n        return 0\n", "    found = properties.findall(tag)\n    if not found:\n        return 0\n    elem = found[0]\n"),
     T("xlsx-reset-unconditional", "sharepoint2text/parsing/extractors/ms_modern/xlsx_extractor.py", "    if hasattr(ws, \"reset_dimensions\"):\n        ws.reset_dimensions()\n", "    ws.reset_dimensions()\n"),
     T("xlsx-emptiness-spelled-out", XLSX, "    return val is not None and (not isinstance(val, str) or val.strip() != \"\")", "    if val is None:\n        return False\n    if isinstance(val, str):\n        return val.strip() != \"\"\n    return True"),
     T("docx-cell-comprehension-as-loop", DOCX, "                    cell_paragraphs = [\n                        _extract_paragraph_content(p, include_formulas=False)\n                        for p in _iter_wrapped(tc, (W_P, W_TBL))\n                        if p.tag == W_P\n                    ]", "                    cell_paragraphs = []\n                    for p in _iter_wrapped(tc, (W_P, W_TBL)):\n                        if p.tag == W_P:\n                            cell_paragraphs.append(_extract_paragraph_content(p, include_formulas=False))"),
